@@ -1,6 +1,7 @@
 import Feox.Drv.Fsm
 import Feox.Drv.Fmt
 import Feox.Drv.Kv
+import Feox.Drv.Cache
 /-! `feoxdrv` — the Lean side of the correspondence check: reads one operation per line on
 stdin, runs the executable models, prints one answer line per input line.  Imports models
 only (no Mathlib, no proof files), so it links as a native executable. -/
@@ -9,6 +10,7 @@ open Feox
 structure Drv where
   fsm : Fsm.State := {}
   kv : Kv.State := {}
+  cache : Cache.State := Cache.mkState 1 0 (fun _ => 0)
 
 def stepLine (d : Drv) (line : String) : IO (Drv × String) := do
   match (line.trimAscii.toString.splitOn " ").filter (· ≠ "") with
@@ -19,6 +21,10 @@ def stepLine (d : Drv) (line : String) : IO (Drv × String) := do
   | "kv" :: rest =>
     match Drv.KvDrv.handle d.kv rest with
     | some (s, out) => pure ({ d with kv := s }, out)
+    | none => pure (d, "bad-op")
+  | "cache" :: rest =>
+    match Drv.CacheDrv.handle d.cache rest with
+    | some (s, out) => pure ({ d with cache := s }, out)
     | none => pure (d, "bad-op")
   | "fmt" :: rest =>
     match ← Drv.FmtDrv.handleIO rest with
